@@ -83,6 +83,9 @@ def gen_case(rng, kind):
             "geometry": [None, "ga", "gb"][int(rng.integers(3))],
             "multi": ["none", "none", "list", "glob"][int(rng.integers(4))],
             "rewrite": bool(rng.random() < 0.3), "exact": exact,
+            # input partitions emptied by a row filter before writing (their files hold zero rows)
+            "empty_parts": sorted(set(int(v) for v in rng.integers(0, 16, int(rng.integers(1, 3)))))
+            if rng.random() < 0.3 else [],
             "seed": int(rng.integers(2 ** 31))}
 
 
@@ -125,6 +128,11 @@ def check_case(ctx, case):
                 p = os.path.join(root, f"d{di}.parq")
                 npart = max(1, min(case["npartitions"], len(src)))
                 ddf = dd.from_pandas(src, npartitions=npart, sort=False)
+                emp = [k_ for k_ in case.get("empty_parts") or [] if k_ < ddf.npartitions]
+                if emp and ddf.npartitions >= 2 and len(emp) < ddf.npartitions:
+                    gone = [r_ for k_ in emp for r_ in ddf.partitions[k_]["rid"].compute().tolist()]
+                    ddf = ddf[~ddf["rid"].isin(gone)]
+                    ctx.count("datasets_with_zero_row_partitions")
                 ow = bool(case.get("rewrite")) and di == 0
                 if ow:
                     # history: another dataset was written to, and read from, the same path before
@@ -228,6 +236,8 @@ def check_case(ctx, case):
                 boxes.append([b0[0], b0[1] - 7, b0[2], b0[1]])
                 boxes.append([b0[0] - 3, b0[3], b0[0], b0[3] + 2])
                 boxes.append([b0[2], b0[3], b0[0], b0[1]])                     # reversed corners
+                boxes.append([b0[2] + 1, b0[1] - 1, b0[0] - 1, b0[3] + 1])     # only x reversed
+                boxes.append([b0[0] - 1, b0[3] + 1, b0[2] + 1, b0[1] - 1])     # only y reversed
             boxes.append([10 ** 6, 10 ** 6, 10 ** 6 + 1, 10 ** 6 + 1])        # disjoint from everything
             boxes.append([-10, -10, 10 ** 5, 10 ** 5])                         # covers everything
             for _ in range(2):
@@ -254,7 +264,7 @@ def check_case(ctx, case):
                 pw = {"box": bx, "recorded": recv[:8], "kept_expected": keep}
                 if [r_ for r_ in got_ids if r_ not in nan_ids] != exp_ids and len(got) > 0 or \
                         (len(got) == 0 and exp_ids):
-                    viol("prune-set", f"partition-bounds:wrong-partitions-kept:{'touching' if (fin and bx in boxes[:5]) else 'reversed' if (fin and bx == boxes[5]) else 'other'}",
+                    viol("prune-set", f"partition-bounds:wrong-partitions-kept:{'touching' if (fin and bx in boxes[:5]) else 'reversed' if (fin and bx in boxes[5:8]) else 'other'}",
                          exp_ids[:20], got_ids[:20], pw)
                 # no intersecting row lost (row-level exact oracle, integer coordinates)
                 B = np.array([[int(round(2 * v)) for v in nb]], dtype=np.int64)
